@@ -421,7 +421,35 @@ def rule_e(ctx):
     ctx.floor(R, 1)
 
 
+def rule_f(ctx):
+    R = "C13.f"
+    ctx.rule(R, "the cleaning filter is a function of the images it is learnt from: hidden-state analysis of ConcentrationAnalysis with "
+             "find_cleaning_filter as entry -- every read of self.threshold_cleaning_filter is preceded by a write in the same call, so a filter "
+             "determined again (set-up with update, a second set of baseline images) does not contain the previous one")
+    from ..state import StateAnalysis
+
+    m = ctx.model
+    k = m.cls(MOD, "ConcentrationAnalysis")
+    ctx.need("find_cleaning_filter" in k.methods, "ConcentrationAnalysis.find_cleaning_filter not found")
+    sa = StateAnalysis(m, k, ["find_cleaning_filter"])
+    ctx.instance(R)
+    seen = set()
+    for f, n, a, kind, an, chain in sa.cross_call_reads():
+        if a != "threshold_cleaning_filter":
+            continue   # configuration set by the constructor and the reduction / balancing objects: C13.b-d
+        key = (f.qname, n.text())
+        if key in seen:
+            continue
+        seen.add(key)
+        ok, why = sa.justify(f, n, a, kind)
+        ctx.ob(R, f.qname, f"read of self.{a} in `{n.text()[:60]}` does not depend on earlier calls", ok,
+               f"{why}. The filter learnt before survives into the one learnt now: cleaning removes the maximum of both", an, evidence=True)
+    ctx.ob(R, k.qname, "find_cleaning_filter analysed for a filter kept from earlier calls", True, "", k.node)
+    ctx.floor(R, 1)
+
+
 def run(ctx):
+    rule_f(ctx)
     rule_a(ctx)
     rule_b(ctx)
     rule_c(ctx)
